@@ -157,11 +157,11 @@ Definition attrs_ok (l : Transform.lentry) : Prop :=
   Forall xattr_fits (Transform.le_xattrs l) /\ Forall extra_ok (Transform.le_extras l).
 
 Lemma writable_attrs e : writable_normal e -> attrs_ok (lview e).
-Proof. intros (_ & _ & _ & _ & _ & EX & _ & _ & _ & _ & TC & TM & TA & PM & XS). repeat split; assumption. Qed.
+Proof. intros (_ & _ & _ & _ & _ & EX & _ & _ & _ & TC & TM & TA & PM & XS). repeat split; assumption. Qed.
 
 Lemma reentry_writable e l : writable_normal e -> attrs_ok l -> writable_normal (reentry e l).
 Proof.
-  intros (H1 & H2 & H3 & H4 & H5 & _ & H7 & H8 & H9 & H10 & _) (TC & TM & TA & PM & XS & EX).
+  intros (H1 & H2 & H3 & H4 & H5 & _ & H8 & H9 & H10 & _) (TC & TM & TA & PM & XS & EX).
   unfold writable_normal, reentry. cbv zeta.
   cbn [with_extra_chunks with_xattrs with_metadata n_hdr n_phsf n_extra n_data n_meta n_xattrs
        m_raw_size m_compressed m_ctime m_mtime m_atime m_perm].
@@ -335,12 +335,11 @@ End View.
 
 (* ---- keep-solid with the pipeline's SolidEntryBuilder as `rebuild`: the hypothesis about rebuilding is
    a theorem (WfPipelineFacts.rebuild_solid_writable) for every block cipher that keeps 16-byte blocks
-   and every compressor that hands on pieces shorter than 2^32 bytes ------------------------------------ *)
+   and every compressor (what it hands on is cut to chunk size by the FlattenWriter: no premise) ------------ *)
 Section PipelineRebuild.
 Variable E : encryption -> bytes -> bytes -> bytes.
 Variable compress : compression -> N -> list bytes -> list bytes.
 Hypothesis E_len : forall a k b, len16 b -> len16 (E a k b).
-Hypothesis compress_fits : compress_small compress.
 Variables hdr_tok content_tok : normal_entry -> bytes.
 Variable expand : solid_entry -> res (list normal_entry).
 Hypothesis expand_writable : forall s inner, writable_solid s -> expand s = Ok inner -> Forall writable_normal inner.
@@ -360,7 +359,7 @@ Theorem transform_wf_pipeline keep pw c nfiles sel a a' : cmd_ok c -> wf_archive
 Proof.
   apply transform_wf; [exact expand_writable|].
   intros s inner (_ & _ & _ & EX & _) W. unfold rebuild_pipeline.
-  exact (rebuild_solid_writable E compress E_len (cfg_of s) ctx (so_extra s) inner compress_fits ctx_ok EX W).
+  exact (rebuild_solid_writable E compress E_len (cfg_of s) ctx (so_extra s) inner ctx_ok EX W).
 Qed.
 End PipelineRebuild.
 
